@@ -82,7 +82,11 @@ func Decode[T Tokener](b []byte, decFn codec.Decoder) (T, error) {
 
 // DecodeReader is the same as Decode, but accept an io.Reader.
 func DecodeReader[T Tokener](r io.Reader, decFn codec.Decoder) (T, error) {
-	node, err := ipld.DecodeStreaming(NoEmptyReads(r), decFn)
+	rd := NoEmptyReads(r)
+	node, err := ipld.DecodeStreaming(rd, decFn)
+	if err == nil {
+		err = rd.Err()
+	}
 	if err != nil {
 		return *new(T), err
 	}
